@@ -130,8 +130,12 @@ def make_flake(case, storeStates="all"):
         with os.fdopen(fd, "w") as f:
             yaml.safe_dump(cfg0, f)
     try:
+        kdict = dict(case["k"])
+        for key, tname in (case.get("k_types") or {}).items():     # numpy-integer / float coefficients
+            if key in kdict:
+                kdict[key] = getattr(np, tname)(kdict[key])
         kw = dict(
-            k=dict(case["k"]),
+            k=kdict,
             N_vials=tuple(case["N_vials"]),
             storeStates=storeStates,
             solidificationThreshold=case.get("threshold", 0.9),
